@@ -2413,6 +2413,10 @@ class DenseArrayBase(
     def verify(self):
         data_len = len(self.data.data)
         elt_size = self.elt_type.size
+        if elt_size == 0:
+            raise VerifyException(
+                f"Element type {self.elt_type} of {self.name} has no storage size"
+            )
         if data_len % elt_size:
             raise VerifyException(
                 f"Data length of {self.name} ({data_len}) not divisible by element "
